@@ -77,7 +77,7 @@ func servicesText(ver int, invalidEntry bool) string {
 		rules = append(rules, "||"+marker(j, ver, "svc")+"^")
 	}
 	// The service also covers a host that rule lists have verdicts on.
-	rules = append(rules, "||multi.shared.test^")
+	rules = append(rules, "||ads.multi-shared.com^")
 	svcs := []map[string]any{
 		{"id": "svc_a", "name": "Service A", "rules": rules},
 	}
